@@ -269,7 +269,10 @@ def run_item(item, tier):
         c, v, d, info = run_history(h)
         dead[0] += info["dead"]
         return c, v, d, info
-    res = bfs.explore(rh, lambda h, i: ALPHABET, DEPTH[tier], prefix=[item["first"]], merge=False)
+    depth = DEPTH[tier]
+    if tier == "thorough" and item["first"].get("edit", True):
+        depth -= 1      # thorough: depth 4 below the evaluation ops, depth 3 below the edits
+    res = bfs.explore(rh, lambda h, i: ALPHABET, depth, prefix=[item["first"]], merge=False)
     res.samples = [{"history": h} for h in res.samples[:1]]
     out = res.as_item_result()
     out["counts"]["dead_handles_probed"] = dead[0]
